@@ -13,7 +13,7 @@ open VaxisModel.Model.Render (Cell Style Caps Grid)
 
 /-- A blank of width 1 in the cell's style (and hyperlink). -/
 def blankOf (caps : Caps) (c : Cell) : DCell :=
-  .glyph "20" 1 (shown caps c.style) (if c.style.link = "" then "" else c.style.linkParams) c.style.link
+  .glyph "20" 1 (shown caps c.style) (paramField (if c.style.link = "" then "" else c.style.linkParams)) c.style.link
 
 /-- `expectedRow`, with a glyph that does not fit in the rest of its row shown as a blank. -/
 def expectedRowC (cw : String → Nat) (caps : Caps) : Nat → List Cell → List DCell
